@@ -149,6 +149,7 @@ fn run_seq(run: &mut Run, u: &mut U, sa: &[AI], split: usize, mutant: u32, pend:
     let mut out = u.abs_all(&p_from.to_instructions());
     mutate_listing(mutant, sa, &mut out);
     let coq = format!("({}, [], {})", u.coq_list(sa), u.coq_list(&out));
+    report_unknown(u, run, &desc);
     run.case(coq, &desc, nontrivial, pending_tag(sa));
     // case B: concatenation of the two halves
     if split > 0 && split < sa.len() {
@@ -156,6 +157,7 @@ fn run_seq(run: &mut Run, u: &mut U, sa: &[AI], split: usize, mutant: u32, pend:
         mutate_listing(mutant, sa, &mut out);
         let coq = format!("({}, {}, {})", u.coq_list(s1), u.coq_list(s2), u.coq_list(&out));
         let d2 = format!("{} ++ {}", u.describe(s1), u.describe(s2));
+        report_unknown(u, run, &d2);
         run.case(coq, &d2, nontrivial, pending_tag(sa));
         run.count("via-concatenation");
     }
